@@ -1,7 +1,16 @@
 import Tup.DrvUtil
 import Tup.Model.Upload
+import Tup.Model.Display
 import Tup.Spec.Store
-/-! Driver for the end-to-end group (C09, C08). -/
+import Tup.Drv.Txn
+/-! Driver for the end-to-end group (C09, C08).
+
+  Besides the C09 upload machine and the C08 judgement `printok`, two correspondence requests:
+  * `display …` replays a scenario's abstract request list through `Model.Display` (`Display.step`,
+    cross-checked against `Display.trace` on the whole list) with the implementation's choices as inputs
+    and answers, per request, whether the MODEL transmits, what it prints and which id `upload` returns;
+  * everything starting with `txn` goes to `Drv/Txn.lean` (block structure of the transaction model,
+    used by C12 / C03). -/
 namespace Tup.Drv.E2e
 open Tup
 
@@ -16,6 +25,122 @@ def parseLog (t : String) : Option (List Spec.Arrival) :=
     | [i, tok, r, c, sz, tm] => do
         pure { id := ← i.toNat?, token := tok, rows := ← r.toNat?, cols := ← c.toNat?, size := ← sz.toNat?, time := ← tm.toNat? }
     | _ => none
+
+/-! ### replay of a C08 scenario through `Model.Display` (K "display model")
+
+  `display <maxIds> <rebind 0|1> <maxUploads> <maxBytes> <maxTimeµs> <step>…`, one token per step, fields
+  separated by `;`, sub-fields by `@`; `at` is the absolute clock value (µs) of the step:
+    `R;at;term;target;token;rows;cols;size;force;display;method;ssh;isFile;available`   a request (`upload` /
+        `upload_and_display`); target = `a@cb@u3@b@e@pick@samples@removed` (file / image: `assign_id` → `get_id`
+        with the implementation's choices) | `f@id` (`force_id=`) | `i@id` (an `ImageInstance`);
+        method = auto | file | direct | anything else (unsupported)
+    `G;at;a@…;token;rows;cols`   `assign_id` alone (environment step `get_id`)
+    `S;at;id;token;rows;cols`    `assign_id(force_id=)` alone (environment step `set_id`)
+    `D;at;id`                    `del_id`
+  Reply: `ok <tx>;<print>;<ret>;<margin>…`, one token per `R` step: tx = `-` | `t@term@id`, print = `-` |
+  `p@term@id@rows@cols`, ret = id of the instance `upload` returns | `none` (it raised), margin = distance (µs)
+  of this request's age test `now > upload_time + maxTime` from its boundary (`-`: no upload row consulted). -/
+
+structure WStep where
+  at_ : Nat
+  step : Display.Step
+  isReq : Bool
+
+def parseTarget (t : String) : Option Display.Target :=
+  match t.splitOn "@" with
+  | ["a", cb, u3, b, e, pick, ss, rs] => do
+      pure (.alloc (← Tup.Drv.Db.spaceOf cb u3) ⟨← b.toNat?, ← e.toNat?⟩
+        { pick := ← pick.toNat?, samples := ← Tup.Drv.Db.parseRounds ss, removed := ← Tup.Drv.Db.parseRounds rs })
+  | ["f", id] => do pure (.forced (← id.toNat?))
+  | ["i", id] => do pure (.inst (← id.toNat?))
+  | _ => none
+
+def parseMethod : String → Display.MethodCfg
+  | "auto" => .auto
+  | "file" => .file
+  | "direct" => .direct
+  | _ => .unsupported
+
+def parseWStep (t : String) : Option WStep :=
+  match t.splitOn ";" with
+  | ["R", at_, term, tg, tok, r, c, size, force, disp, method, ssh, isFile, avail] => do
+      let rq : Display.Request :=
+        { term := term, target := ← parseTarget tg, desc := ⟨tok, ← r.toNat?, ← c.toNat?⟩, size := ← size.toNat?,
+          force := force = "1", display := disp = "1",
+          via := { method := parseMethod method, insideSsh := ssh = "1",
+                   src := { isFile := isFile = "1", available := avail = "1" } } }
+      pure ⟨← at_.toNat?, .req rq, true⟩
+  | ["G", at_, tg, tok, r, c] => do
+      match ← parseTarget tg with
+      | .alloc s u ch =>
+          let d : Display.Desc := ⟨tok, ← r.toNat?, ← c.toNat?⟩
+          pure ⟨← at_.toNat?, .env (.get ⟨s, u, d.str⟩ ch), false⟩
+      | _ => none
+  | ["S", at_, id, tok, r, c] => do
+      let d : Display.Desc := ⟨tok, ← r.toNat?, ← c.toNat?⟩
+      pure ⟨← at_.toNat?, .env (.set (← id.toNat?) d.str), false⟩
+  | ["D", at_, id] => do pure ⟨← at_.toNat?, .env (.del (← id.toNat?)), false⟩
+  | _ => none
+
+def evStr : Display.Event → String
+  | .transmit T x _ _ => s!"t@{T}@{x}"
+  | .print T x d => s!"p@{T}@{x}@{d.rows}@{d.cols}"
+
+/-- distance of the age test of `needs_uploading` from its boundary in the request `r` issued in state `s` -/
+def ageMargin (cfg : Cfg) (thr : Thresholds) (rebind : Bool) (s : Display.State) (r : Display.Request) : String :=
+  match Display.bind cfg rebind s.db s.now r.target r.desc with
+  | (db1, some x) =>
+    match getUploadInfo db1 x r.term with
+    | some ui =>
+      let lim := ui.time + thr.maxTime
+      toString (if s.now ≥ lim then s.now - lim else lim - s.now)
+    | none => "-"
+  | _ => "-"
+
+def reqOut (evs : List Display.Event) (ret : Option Nat) (margin : String) : String :=
+  let tx := match evs.find? (fun e => match e with | .transmit .. => true | _ => false) with
+    | some e => evStr e
+    | none => "-"
+  let pr := match evs.find? (fun e => match e with | .print .. => true | _ => false) with
+    | some e => evStr e
+    | none => "-"
+  let rt := match ret with
+    | some x => toString x
+    | none => "none"
+  s!"{tx};{pr};{rt};{margin}"
+
+/-- fold of `Display.step` over the wire steps, a clock tick to `at` before each; `none`: the clock went back -/
+def replayLoop (cfg : Cfg) (thr : Thresholds) (rebind : Bool) :
+    List WStep → Display.State → List String → List Display.Step → List Display.Event →
+    Option (List String × List Display.Step × List Display.Event)
+  | [], _, outs, steps, evs => some (outs.reverse, steps.reverse, evs.reverse)
+  | w :: rest, s, outs, steps, evs =>
+    if w.at_ < s.now then none
+    else
+      let tick : Display.Step := .env (.tick (w.at_ - s.now))
+      let s1 := (Display.step cfg (fun _ => thr) rebind s tick).1
+      let (s2, ev) := Display.step cfg (fun _ => thr) rebind s1 w.step
+      let outs' := match w.step with
+        | .req r =>
+          reqOut ev (Display.upload cfg (fun _ => thr) rebind s1 r).2.2 (ageMargin cfg thr rebind s1 r) :: outs
+        | .env _ => outs
+      replayLoop cfg thr rebind rest s2 outs' (w.step :: tick :: steps) (ev.reverse ++ evs)
+
+def displayReplay : List String → String
+  | m :: rb :: mu :: mb :: mt :: steps =>
+    match m.toNat?, Tup.Drv.Db.thrOf mu mb mt, steps.mapM parseWStep with
+    | some m, some thr, some ws =>
+      let cfg : Cfg := { maxIds := m }
+      let rebind := rb = "1"
+      match replayLoop cfg thr rebind ws Display.State.init [] [] [] with
+      | none => "bad clock"
+      | some (outs, allSteps, allEvs) =>
+        -- the per-request events are exactly the events of `Display.trace` on the whole history
+        if (Display.trace cfg (fun _ => thr) rebind Display.State.init allSteps).map (·.2) == allEvs then
+          " ".intercalate ("ok" :: outs)
+        else "bad trace"
+    | _, _, _ => "bad"
+  | _ => "bad"
 
 def handle : List String → String
   -- upload <chunk lengths> <fault: - | at:kind:after>   kind ∈ io|died
@@ -42,6 +167,7 @@ def handle : List String → String
             | none => "none"
           s!"{boolStr (Spec.printOk thr l x tok r c now)} {sh}"
       | _, _, _, _, _, _, _, _ => "bad"
-  | _ => "bad"
+  | "display" :: args => displayReplay args
+  | args => (Tup.Drv.Txn.handle args).getD "bad"
 
 end Tup.Drv.E2e
